@@ -91,7 +91,8 @@ fn items_of(v: &Value) -> Vec<i64> {
 }
 
 const STEP_TIMEOUT: Duration = Duration::from_secs(4);
-const LONG: Duration = Duration::from_secs(3600);
+// "no timeout": alternately an hour and the largest representable duration (all timeouts)
+const LONGS: [Duration; 2] = [Duration::from_secs(3600), Duration::MAX];
 
 struct Mismatch {
     class: &'static str,
@@ -99,7 +100,9 @@ struct Mismatch {
     what: String,
 }
 
-fn run_case(cfg: &Value, case: &Value) -> (Vec<Mismatch>, Value, Vec<Value>) {
+fn run_case(cfg: &Value, case: &Value, ln: usize) -> (Vec<Mismatch>, Value, Vec<Value>) {
+    #[allow(non_snake_case)]
+    let LONG = LONGS[ln % 2];
     let sched = Sched::new();
     let rec = Recorder::new();
     emit_batcher::verif::install(Some(Arc::new(SchedRecHooks(sched.clone(), rec.clone()))));
@@ -181,6 +184,7 @@ fn run_case(cfg: &Value, case: &Value) -> (Vec<Mismatch>, Value, Vec<Value>) {
                 for (k, op) in ops.iter().enumerate() {
                     let item = idx * 10 + (k as i64 + 1);
                     set_current_item(item);
+                    rec.log(json!({"ev": "SendCall", "item": item, "kind": match op.as_str() { "send" => "send", "try" => "try", _ => "block" }}));
                     let res = match op.as_str() {
                         "send" => {
                             sender.send(item);
@@ -480,7 +484,7 @@ fn main() {
             return;
         }
         rep.cases += 1;
-        let (mism, trace, atrace) = run_case(&cfg, case);
+        let (mism, trace, atrace) = run_case(&cfg, case, ln);
         let divergent = !mism.is_empty();
         let hang = mism.iter().any(|m| m.what.contains("(hang)"));
         if hang {
